@@ -91,8 +91,10 @@ def _case(draw: Any, max_ops: int) -> dict[str, Any]:
                 eu = min(hi, draw(st.sampled_from([0.0, 10.0, 30.0])))
             ops.append(["bounds", draw(st.integers(0, ngroups - 1)), lo, hi, el, eu])
         elif kind == "res":
+            # the result answers the latest request of the group, or (stale result) one sent 1-2 requests earlier
             ops.append(["res", draw(st.integers(0, ngroups - 1)),
-                        draw(st.sampled_from(["success", "partial", "partial", "error", "oob"]))])
+                        draw(st.sampled_from(["success", "partial", "partial", "error", "oob"])),
+                        draw(st.sampled_from([0, 0, 0, 1, 1, 2]))])
         else:
             ops.append(["adv", draw(st.sampled_from([0.5, 1.0, 2.0, 30.0, 59.0, 61.0, 120.0]))])
     return {"ngroups": ngroups, "actors": actors, "ops": ops}
@@ -150,6 +152,7 @@ def run_case(case: Any, pid: str) -> Verdict:
             latest_bounds: dict[int, tuple[float, float]] = {}
             reported: dict[tuple[int, bool], float | None] = {}
             last_request: dict[int, Any] = {}
+            request_history: dict[int, list[Any]] = {}
             last_kind: dict[int, str] = {}
 
             async def drain_async(rx: Any) -> list[Any]:
@@ -186,10 +189,16 @@ def run_case(case: Any, pid: str) -> Verdict:
                         flags["bounds_between"] = True
                     last_kind[g] = "prop"
                 elif op[0] == "res":
-                    _, g, kind = op
-                    req = last_request.get(g)
-                    if req is None:
+                    _, g, kind = op[:3]
+                    back = op[3] if len(op) > 3 else 0
+                    hist = request_history.get(g, [])
+                    if not hist:
                         continue
+                    req = hist[max(0, len(hist) - 1 - back)]
+                    if req is not hist[-1]:
+                        v.labels.add("stale_result")
+                        if kind == "partial":
+                            v.labels.add("stale_partial_failure")
                     zero = Power.zero()
                     if kind == "success":
                         res: Any = pd.Success(request=req, succeeded_power=req.power, succeeded_components=set(req.component_ids),
@@ -223,6 +232,7 @@ def run_case(case: Any, pid: str) -> Verdict:
                     if not mine:
                         continue
                     last_request[g] = mine[-1]
+                    request_history.setdefault(g, []).extend(mine)
                     lo, hi = latest_bounds.get(g, (0.0, 0.0))
                     for r in mine:
                         pw = r.power.as_watts()
